@@ -603,6 +603,33 @@ func main() {
 			}
 		}
 	}
+	// persistence: K failed exchanges on one connection (attempt counters, lock-outs and what they leave behind),
+	// then every kind of finish once more, and a genuine one
+	reps := []int{3, 100}
+	failing := []string{"wrong-key-signature", "unknown-name", "sealed-zero-key", "short"}
+	if r.Thorough() {
+		reps = []int{3, 10, 99, 100, 101, 255, 256, 300}
+		failing = append(failing, "removed-controller", "known-name-empty-sig", "tampered-ciphertext", "empty")
+	}
+	for _, k := range reps {
+		for _, f := range failing {
+			for _, s := range alphabet {
+				if s.Kind != "finish" {
+					continue
+				}
+				if !r.Thorough() && k > 3 && s.Var != "genuine" && s.Var != f && s.Var != "replay-earlier-exchange" && s.Var != "sealed-zero-key" && s.Var != "known-name-empty-sig" && s.Var != "accessory-name-self-signed" {
+					continue
+				}
+				var seq []symbol
+				for i := 0; i < k; i++ {
+					seq = append(seq, symbol{"start", "valid"}, symbol{"finish", f})
+				}
+				seq = append(seq, symbol{"start", "valid"}, s)
+				do(seq, 2, true, false)
+				r.Count("persistence_histories", 1)
+			}
+		}
+	}
 	n := r.Pick(2000, 100000)
 	for i := 0; i < n; i++ {
 		k := 3 + rnd.Intn(6)
